@@ -246,6 +246,9 @@ def classify(f, shp, path, exp, got, cfg, crash=None):
             e, g = 'values', 'other-values'
         if exp[:2] == got[:2]:
             e, g = 'same', 'log-differs'
+    if path in ('callsite', 'inner') and shp.same_display_dup():
+        # f(**{'a': 1, 'a': 2}): one dict display repeating a constant key (CPython: the later value wins)
+        return 'bind:callsite-dup-key-inside-one-literal-display:%s->%s' % (e, g)
     if path in ('callsite', 'inner') and shp.literal_dup():
         # compiled call site, keyword repeated between direct keywords / literal ** dict displays
         return 'bind:callsite-literal-dup-keyword:%s->%s' % (e, g)
